@@ -673,6 +673,9 @@ type foCfg struct {
 	observeMut      bool
 	boxVals         bool          // interface{} frontends cache the tokens inside a slice (uncomparable dynamic type)
 	noiseBackendCfg bool          // a BackendConfig is passed next to Backend (documented to apply only without a Backend)
+	noopBackend     bool          // the frontend sits on cache.NoOp (nothing is ever stored); only checks whose oracle does not look at the backend use it
+	directNoOp      bool          // with noopBackend: hand cache.NoOp{} to the frontend itself, not wrapped (no yield points at backend calls)
+	siblingFailover bool          // a second Failover with the same Name (own backend) has failed builds of the same keys cached
 	backendDEA      time.Duration // DeleteExpiredAfter of the real backend (0 = out of reach); its janitor never runs
 	backendTTL      time.Duration
 }
@@ -818,10 +821,32 @@ func (w *world) attach() {
 		c.Class("BackendConfig-next-to-Backend")
 	}
 
+	if cfg.siblingFailover {
+		// failures of another instance with the same name are that instance's business
+		sib := cache.NewFailover(cache.FailoverConfig{Name: w.name, FailedUpdateTTL: cfg.failedUpdateTTL, UpdateTTL: cfg.updateTTL, MaxStaleness: cfg.maxStaleness}.Use)
+		c.OnClose(1, sib.VerifClose)
+
+		for _, k := range [][]byte{[]byte("k1"), []byte("k2"), []byte("k3"), []byte("many-0000"), []byte("many-0001")} {
+			_, _ = sib.Get(bg, k, func(context.Context) (interface{}, error) { return nil, errors.New("failure of the sibling instance") })
+		}
+
+		c.Class("sibling-failover-with-the-same-name")
+	}
+
+	var direct cache.ReadWriter = wrap
+	if cfg.noopBackend && cfg.directNoOp {
+		direct = cache.NoOp{}
+	}
+
 	if cfg.variant >= 3 {
 		wrap.real = w.be.Raw().(cache.ReadWriter)
+		if cfg.noopBackend {
+			wrap.real = cache.NoOp{}
+			c.Class("backend=NoOp")
+		}
+
 		f := cache.NewFailoverOf[any](cache.FailoverConfigOf[any]{
-			Name: w.name, Backend: wrap, BackendConfig: noise,
+			Name: w.name, Backend: direct, BackendConfig: noise,
 			FailedUpdateTTL: cfg.failedUpdateTTL, UpdateTTL: cfg.updateTTL, SyncUpdate: cfg.syncUpdate, SyncRead: cfg.syncRead,
 			MaxStaleness: cfg.maxStaleness, FailHard: cfg.failHard, Logger: logger, Stats: stats, ObserveMutability: cfg.observeMut,
 		}.Use)
@@ -836,8 +861,13 @@ func (w *world) attach() {
 		w.fe = foOf{f}
 	} else {
 		wrap.real = w.be.Raw().(cache.ReadWriter)
+		if cfg.noopBackend {
+			wrap.real = cache.NoOp{}
+			c.Class("backend=NoOp")
+		}
+
 		f := cache.NewFailover(cache.FailoverConfig{
-			Name: w.name, Backend: wrap, BackendConfig: noise,
+			Name: w.name, Backend: direct, BackendConfig: noise,
 			FailedUpdateTTL: cfg.failedUpdateTTL, UpdateTTL: cfg.updateTTL, SyncUpdate: cfg.syncUpdate, SyncRead: cfg.syncRead,
 			MaxStaleness: cfg.maxStaleness, FailHard: cfg.failHard, Logger: logger, Stats: stats, ObserveMutability: cfg.observeMut,
 		}.Use)
